@@ -136,6 +136,10 @@ func (c Commitments) GetCreatorAccount() sdk.AccAddress {
 }
 
 func (vesting *VestingTokens) VestedSoFar(ctx sdk.Context) math.Int {
+	// a vesting created while the configured vesting length was 0 blocks is fully vested at once
+	if vesting.NumBlocks == 0 {
+		return vesting.TotalAmount
+	}
 	totalBlocks := ctx.BlockHeight() - vesting.StartBlock
 	if totalBlocks > vesting.NumBlocks {
 		totalBlocks = vesting.NumBlocks
